@@ -81,7 +81,7 @@ RULE = ("generated single-export TsCore programs are compiled by the REAL compil
 def run(chk):
     chk.build_rust(); chk.build_js()
     quick = chk.tier == "quick"
-    passes = [_corpus] + ([_pass(chk.seed * 100 + 9, 1200, 10, "describe(random)"), _pass_rt(chk.seed * 100 + 10, 800, 8, "describe(runtypes)")] if quick else
+    passes = [_corpus] + ([_pass(chk.seed * 100 + 9, 2400, 10, "describe(random)"), _pass_rt(chk.seed * 100 + 10, 1600, 8, "describe(runtypes)")] if quick else
                           [_pass(chk.seed * 100 + k, 6000, 16, f"describe(random#{k})") for k in range(6)] + [_pass_rt(chk.seed * 100 + 20 + k, 6000, 10, f"describe(runtypes#{k})") for k in range(3)])
     return vcheck.generic_run(chk, MODULES, AUDIT, passes,
         ["C15: Model/Describe.lean models describeTypeExpr of every class, describeObjectMember, collectDescribeRefs, BaseRefRuntype.describe and ParserFromRuntype.describe by hand (text level)",
